@@ -129,6 +129,21 @@ def faults(game):
             yield "R7-not-list-of-2-tuples", f"state {s} {name}", repr(val)[:40], s > 0, g
 
 
+def alias_faults(game):
+    """Faults that only exist through object identity: state j's transition list IS state i's list object,
+    where i is a player state and j a probabilistic one or the other way round (so j's entries have the wrong
+    kind of first slot: rule R8 / R9), in both index orders."""
+    n = len(game["players"])
+    for i in range(n):
+        for j in range(n):
+            if i == j or (game["players"][i] == PR) == (game["players"][j] == PR):
+                continue
+            g = copy.deepcopy(game)
+            g["transition_list"][j] = g["transition_list"][i]
+            rule = "R9-non-numeric-probability" if game["players"][j] == PR else "R8-non-string-action"
+            yield rule, f"state {j} shares the list object of state {i}", "alias", True, g
+
+
 @st.composite
 def bases(draw):
     return dict(game=draw(games.any_games(min_states=2, max_states=7, max_actions=3)))
@@ -289,7 +304,7 @@ def check_case(case):
         except Exception as e:
             v.fail("base-game-rejected", f"well-formed base game rejected: {type(e).__name__}: {e}: {base}")
             return v
-        allf = list(faults(base))
+        allf = list(faults(base)) + list(alias_faults(base))
         only = case.get("fault")
         evals = 0
         keys = []
